@@ -48,10 +48,12 @@ def cases(tier, seed, shard, nshards):
                "direct": rng.random() < 0.25,
                "calls": calls, "susp": susp, "cancel_task": rng.randrange(nt) if rng.random() < 0.45 else None,
                "runs": DFS_LIMIT[tier] if mode == "dfs" else RANDOM_RUNS[tier], "seed": rng.randrange(1 << 30),
-               "exc": rng.choice(PLANNED_NAMES)}
+               "exc": rng.choice(PLANNED_NAMES + ["exact:" + k for k in EXACT])}
 
 
 BodyError = Planned  # the body's failure: one of the PLANNED family, chosen per scenario
+EXACT = {"Exception": Exception, "BaseException": BaseException, "StopAsyncIteration": StopAsyncIteration,
+         "RuntimeError": RuntimeError, "KeyError": KeyError}
 
 
 def execute(case, choose, cancel_at=None):
@@ -108,7 +110,9 @@ def execute(case, choose, cancel_at=None):
         if susp["body"]:
             await Suspend(("body", call_id), susp["body"])
         if how == "raise":
-            exc = PLANNED[case.get("exc", "Exception")](call_id)
+            kind = case.get("exc", "Exception")
+            # "exact:<Type>": an instance of the standard class itself (not of a subclass) - e.g. a plain Exception
+            exc = EXACT[kind[6:]](call_id) if kind.startswith("exact:") else PLANNED[kind](call_id)
             raised[call_id] = exc
             raise exc
         return ("result", call_id)
@@ -122,7 +126,9 @@ def execute(case, choose, cancel_at=None):
             ev.append((CTX.current, "call", cid, how))
             try:
                 r = await body(cid, how)
-            except BodyError as exc:
+            except BaseException as exc:  # noqa: BLE001
+                if not isinstance(exc, BodyError) and exc is not raised.get(cid):
+                    raise  # not the body's planned failure (a cancellation, or something the library made up)
                 ev.append((CTX.current, "done", cid, ("raise", exc)))
             else:
                 ev.append((CTX.current, "done", cid, ("ok", r)))
@@ -200,7 +206,8 @@ def execute(case, choose, cancel_at=None):
                 outcome = evs[-1][3]
                 if how == "ret":
                     want_out = ("ok", ("result", cid))
-                elif suppress:
+                elif suppress and isinstance(raised.get(cid), Exception):
+                    # (the scenario's managers suppress Exceptions only, like most real ones)
                     want_out = ("ok", None)
                 else:
                     want_out = ("raise", raised.get(cid))
